@@ -186,7 +186,20 @@ type tokLine struct {
 type rawIn struct {
 	B64   string `json:"b64"`
 	AllOn bool   `json:"allon"`
-	Text  string `json:"text"` // for the reader only
+	Prof  string `json:"prof,omitempty"` // a named option profile of tokProfiles (instead of AllOn)
+	Text  string `json:"text"`           // for the reader only
+}
+
+// option profiles under which the text key itself carries the attribute prefix (the encoder's two scans of a node's
+// keys -- attributes, then elements -- must agree on what the text key is)
+var tokProfiles = map[string]decOpt{
+	"hash":  {apfx: "#", kpfx: "#"}, // SetAttrPrefix("#"): "#text" begins with the attribute prefix
+	"kdash": {apfx: "-", kpfx: "-"}, // SetGlobalKeyMapPrefix("-"): the text key is "-text", the attribute prefix "-"
+	"under": {apfx: "_", kpfx: "_"},
+}
+
+func rawCaseP(b []byte, prof string) tokLine {
+	return tokLine{F: "tok", Raw: []rawIn{{B64: base64.StdEncoding.EncodeToString(b), Prof: prof, Text: string(b)}}}
 }
 
 func rawCase(b []byte, allOn bool) tokLine {
@@ -360,6 +373,7 @@ func checkXmlInput(doc []byte, class, origin string, a *Acc, rc interface{}) int
 // documents outside the builder's alphabet that the tokenizer accepts: a repeated attribute label, short values that consist
 // almost entirely of characters with long entity names (the escaped form is six times as long)
 var tokExtraDocs = []string{
+	`<a>text<b/><c/></a>`, `<a k="v">text<b/><c>u</c><b k="w">t<d/><e/></b></a>`, `<a text="1" k="2">t<text/><k/></a>`,
 	`<a x="1" x="2"/>`, `<a x="1" x="2" x="3"><b y="" y="">t</b></a>`, `<p:a q:x="1" r:x="2"/>`,
 	`<a>""""""""""""x</a>`, `<a b="''''''''''''''x"/>`, `<a>&amp;&amp;&amp;&amp;&amp;&amp;&amp;&amp;&amp;&amp;&amp;&amp;&amp;&amp;x</a>`,
 	`<a b="&quot;&quot;&quot;&quot;&quot;&quot;&quot;&quot;&quot;&quot;&quot;&quot;&quot;&quot;&quot;&quot;">''''''''''''''''</a>`,
@@ -385,6 +399,11 @@ func replayTok(line []byte, a *Acc) {
 				resetDecOpts()
 				mxj.XMLEscapeChars(false)
 			}
+			for _, prof := range []string{"hash", "kdash", "under"} {
+				tokProfiles[prof].apply()
+				cases += checkXmlInput(doc, oracleClass(doc), "document outside the builder's alphabet, option profile "+prof, a, rawCaseP(doc, prof))
+				resetDecOpts()
+			}
 		}
 	})
 	for _, r := range l.Raw {
@@ -392,6 +411,8 @@ func replayTok(line []byte, a *Acc) {
 		if r.AllOn {
 			decOpt{lower: true, snake: true, asmap: true, keep: true, escdec: true, tagseq: true, apfx: "@", kpfx: "_"}.apply()
 			mxj.CastValuesToInt(true)
+		} else if r.Prof != "" {
+			tokProfiles[r.Prof].apply()
 		}
 		cases += checkXmlInput(b, oracleClass(b), "replayed byte input", a, rawCase(b, r.AllOn))
 		resetDecOpts()
@@ -419,6 +440,11 @@ func replayTok(line []byte, a *Acc) {
 		if c.Op != "none" {
 			nontriv += k
 			continue
+		}
+		for _, prof := range []string{"hash", "kdash"} {
+			tokProfiles[prof].apply()
+			cases += checkXmlInput(doc, c.Cls, "well-formed document under option profile "+prof, a, rawCaseP(doc, prof))
+			resetDecOpts()
 		}
 		// byte level: every truncation, every single-byte deletion, a few substitutions per position
 		for i := 0; i < len(doc); i++ {
